@@ -4,6 +4,7 @@
 #include "mc/mc.hpp"
 #include "mc/explore.hpp"
 #include "checks/map_common.hpp"
+#include "Stream/FileReader.h"
 #include "Map/CellType.h"
 #include <memory>
 #include <set>
@@ -99,6 +100,13 @@ void checkMap(Ctx& ctx, const std::vector<int>& cfg)
 		if (of.cls != 'R') { bad("file-overloads-throw", of.what); return; }
 		if (mapc::dump(mf) != mapc::dump(m)) { bad("file-overload-read-differs-from-stream-read", ""); return; }
 		if (wf != w1) { bad("file-overload-write-differs-from-stream-write", std::to_string(wf.size()) + " bytes"); return; }
+		// the overloads taking a temporary stream; writing over an existing longer file replaces it
+		Map mt; std::vector<uint8_t> wt;
+		auto ot = mc::guarded([&] { mt = Map::ReadMap(Stream::FileReader(in)); mc::writeFile(out, std::vector<uint8_t>(w1.size() + 999, 0xEE)); mt.Write(out); wt = mc::readFile(out); });
+		ctx.transition(2);
+		if (ot.cls != 'R') { bad("temporary-stream-overloads-throw", ot.what); return; }
+		if (mapc::dump(mt) != mapc::dump(m)) { bad("temporary-stream-overload-read-differs", ""); return; }
+		if (wt != w1) { bad("write-over-existing-longer-file-differs", std::to_string(wt.size()) + " bytes"); return; }
 		ctx.count("file-overloads/round-trips");
 	}
 	ctx.state(); ctx.trace();
